@@ -5,6 +5,7 @@ import (
 	"go/constant"
 	"go/token"
 	"go/types"
+	"math/big"
 	"strings"
 
 	"golang.org/x/tools/go/ssa"
@@ -31,6 +32,7 @@ func c02(c *Ctx) {
 	// the rolling window whose sums the decision is computed from (same structure rules as C16.R5)
 	c16windowAs(c, "C02.R8")
 	c02windowScale(c)
+	c02siblings(c)
 }
 
 func loadCall(name string) px.Pred {
@@ -727,5 +729,100 @@ func c02windowScale(c *Ctx) {
 	})
 	if held && seen == 0 {
 		c.R.Undecided(rule, "core/load.NewAdaptiveShedder#windowScale", "anchor resolves", "no store to windowScale found")
+	}
+}
+
+// c02siblings: the two rolling windows (pass counts, response times) are built alike, and the in-flight
+// moving average is a smoothing convex combination.
+func c02siblings(c *Ctx) {
+	rule := "C02.R9"
+	if f := c.fn(rule, "core/load", "NewAdaptiveShedder"); f != nil {
+		ps := c.paths(rule, f, px.Config{MaxVisits: 2})
+		c.forall(rule, "core/load.NewAdaptiveShedder#windows", "the pass-count window and the response-time window are built with the same bucket count, the same bucket duration and the same options (both ignore the current, partial bucket): the capacity estimate multiplies a peak pass count by a minimum latency taken over the same buckets", f, ps, func(p *px.Path) (bool, string) {
+			if p.Exit != px.ExitReturn {
+				return true, ""
+			}
+			var ws []*px.Event
+			for _, e := range p.All(px.KindIs(px.EvCall)) {
+				if e.Call.Static != nil && strings.HasPrefix(e.Call.Static.Name(), "NewRollingWindow") {
+					ws = append(ws, e)
+				}
+			}
+			if len(ws) == 0 {
+				return true, "" // disabled shedder path
+			}
+			if len(ws) != 2 {
+				return false, fmt.Sprintf("%d rolling windows built", len(ws))
+			}
+			a, b := ws[0].Call.Args, ws[1].Call.Args
+			if len(a) != len(b) || len(a) < 4 {
+				return false, "windows built with different argument lists"
+			}
+			if a[1].Strip(true) != b[1].Strip(true) || a[2].Strip(true) != b[2].Strip(true) {
+				return false, "the two windows differ in bucket count or bucket duration"
+			}
+			oa, ob := p.SliceElems(a[3]), p.SliceElems(b[3])
+			name := func(s *px.Sym) string {
+				s = s.Strip(false)
+				if s.Kind == px.KCall && s.Call.Static != nil {
+					return strings.SplitN(s.Call.Static.Name(), "[", 2)[0]
+				}
+				if s.Kind == px.KFunc || s.Kind == px.KClosure {
+					return strings.SplitN(s.Fn.Name(), "[", 2)[0]
+				}
+				return "?" + s.Describe()
+			}
+			if len(oa) != len(ob) {
+				return false, fmt.Sprintf("the windows get %d and %d options: one of them no longer ignores the current partial bucket, so the peak pass count and the minimum latency are taken over different bucket sets (a single fast completion in the current bucket collapses the capacity estimate)", len(oa), len(ob))
+			}
+			for i := range oa {
+				if name(oa[i]) != name(ob[i]) {
+					return false, "the windows get different options: " + name(oa[i]) + " vs " + name(ob[i])
+				}
+			}
+			ign := false
+			for _, o := range oa {
+				if name(o) == "IgnoreCurrentBucket" {
+					ign = true
+				}
+			}
+			if !ign {
+				return false, "the windows do not ignore the current (partial) bucket"
+			}
+			return true, ""
+		})
+	}
+	if f := c.fn(rule, "core/load", "(*adaptiveShedder).addFlying"); f != nil {
+		ps := c.paths(rule, f, px.Config{})
+		seen := 0
+		held := c.forall(rule, "core/load.(*adaptiveShedder).addFlying#average", "on completion the in-flight moving average becomes a·avg + b·flying with a + b = 1 and a > b > 0 (a smoothing average dominated by its history — otherwise the 'both the count and its average' test degenerates into one test), under its spin lock", f, ps, func(p *px.Path) (bool, string) {
+			for _, e := range p.All(px.KindIs(px.EvStore)) {
+				if !px.FieldAddrIs(e.Addr, "avgFlying", nil) {
+					continue
+				}
+				seen++
+				poly := anf(p, e.Val, func(s *px.Sym) string {
+					if px.IsFieldLoad(s, "avgFlying", nil) {
+						return "avg"
+					}
+					if s.Kind == px.KCall && shortName(s.Call) == "sync/atomic.AddInt64" {
+						return "flying"
+					}
+					return ""
+				})
+				ca, cf := poly["avg"], poly["flying"]
+				if ca == nil || cf == nil || len(poly) != 2 {
+					return false, "the new average is not a linear combination of the previous average and the current in-flight count: " + poly.String()
+				}
+				sum := new(big.Rat).Add(ca, cf)
+				if sum.Cmp(big.NewRat(1, 1)) != 0 || cf.Sign() <= 0 || ca.Cmp(cf) <= 0 {
+					return false, "the moving average is " + poly.String() + ": the weights must sum to 1 with the history weighted more than the newest sample"
+				}
+			}
+			return true, ""
+		})
+		if held && seen == 0 {
+			c.R.Undecided(rule, "core/load.(*adaptiveShedder).addFlying#average", "anchor resolves", "no store to avgFlying")
+		}
 	}
 }
